@@ -10,6 +10,7 @@ mod prng;
 mod runner;
 mod shrink;
 mod structure;
+mod witness;
 mod world;
 
 use std::process::ExitCode;
@@ -32,6 +33,7 @@ fn main() -> ExitCode {
             "check" => cmd_check(&args[2..]),
             "replay" => cmd_replay(&args[2..]),
             "selftest" => cmd_selftest(&args[2..]),
+            "witnesses" => cmd_witnesses(),
             other => {
                 eprintln!("unknown command {}", other);
                 2
@@ -149,6 +151,55 @@ fn cmd_check(args: &[String]) -> i32 {
         verif_dir: verif_dir(),
     };
     check::run_check(&cfg).exit
+}
+
+/// rbsim witnesses : (re)writes the witness replay files of the fixed defects and prints,
+/// one per line, name|property|class|key|what|status-now
+fn cmd_witnesses() -> i32 {
+    let dir = format!("{}/witness", verif_dir());
+    let _ = std::fs::create_dir_all(&dir);
+    let cfg_seed = 0;
+    for w in witness::all() {
+        let texts: Vec<String> = w
+            .case
+            .history
+            .programs
+            .iter()
+            .enumerate()
+            .map(|(i, sc)| emit::emit(sc, &w.case.layouts[i.min(w.case.layouts.len() - 1)]).text)
+            .collect();
+        let rep = check::Replay {
+            property: w.property.to_string(),
+            class: w.class.to_string(),
+            key: w.key.to_string(),
+            detail: w.what.to_string(),
+            seed: cfg_seed,
+            scenario_index: 0,
+            case: w.case.clone(),
+            texts,
+        };
+        let path = format!("{}/{}.json", dir, w.name);
+        std::fs::write(&path, serde_json::to_string_pretty(&rep).unwrap()).unwrap();
+        let found = check::replay_found(&rep);
+        let fails = found.iter().any(|f| {
+            f.property == w.property
+                && format!("{:?}", f.class) == w.class
+                && (w.key.is_empty() || f.key.contains(w.key))
+        });
+        println!(
+            "{}|{}|{}|{}|{}|{}",
+            w.name,
+            w.property,
+            w.class,
+            w.key,
+            w.what,
+            if fails { "FAILS" } else { "passes" }
+        );
+        for f in &found {
+            println!("    found {} [{:?}] {}: {}", f.property, f.class, f.key, f.detail.chars().take(160).collect::<String>());
+        }
+    }
+    0
 }
 
 /// rbsim replay <file> : re-run a replay file; exit 1 when the recorded violation reproduces
